@@ -138,6 +138,36 @@ def run_job(job):
                         out["s"].append({"what": f"{e}@{a}: the {which} regression is fitted on {rec['n']} rows and {len(cp['scores'])} units calibrate, but there are only "
                                                  f"{len(h['rep_ids'])} reporting units: calibration units are not held out", "kind": "not-held-out"})
                         break
+            # design rows belong to the same units as the targets: the median fit (all reporting units, in frame order) pairs every
+            # residual with its unit's covariates; each row of a bounds fit must carry the covariates of the unit whose residual and
+            # weight it carries, up to the per-column shift / scale of the featuriser
+            nf = len(p["features"])
+            mi = k * (1 + 2 * A)
+            if nf and fi + 1 < len(fits) and mi < len(fits) and fits[mi].get("x") is not None and fits[mi]["p"] >= 1 + nf:
+                xm, ym, wm = fits[mi]["x"], fits[mi]["y"], fits[mi]["weights"]
+                index = {}
+                for i in range(len(ym)):
+                    index.setdefault((float(ym[i]), float(wm[i]) if wm is not None else 0.0), []).append(i)
+                for which, rec in (("lower", fits[fi]), ("upper", fits[fi + 1])):
+                    if rec.get("x") is None or rec["p"] < 1 + nf or out["s"]:
+                        continue
+                    pairs = []
+                    for j in range(len(rec["y"])):
+                        cand = index.get((float(rec["y"][j]), float(rec["weights"][j]) if rec["weights"] is not None else 0.0), [])
+                        if len(cand) == 1:
+                            pairs.append((cand[0], j))
+                    for c in range(1, 1 + nf):
+                        pts = [(float(xm[i, c]), float(rec["x"][j, c])) for i, j in pairs]
+                        ref = next(((u, v) for u, v in pts if abs(u - pts[0][0]) > 1e-9), None) if pts else None
+                        if ref is None:
+                            continue
+                        slope = (ref[1] - pts[0][1]) / (ref[0] - pts[0][0])
+                        icpt = pts[0][1] - slope * pts[0][0]
+                        bad = [(u, v) for u, v in pts if abs(v - (slope * u + icpt)) > 1e-7 * max(1.0, abs(v), abs(slope * u))]
+                        if bad:
+                            out["s"].append({"what": f"{e}@{a}: the {which} regression pairs the residuals of {len(bad)} of {len(pts)} training units with the covariates "
+                                                     f"({p['features'][c - 1]}) of other units (design rows and targets are not the same units)", "kind": "misaligned-design"})
+                            break
             base_idx = k * (1 + 4 * A) + 1 + 4 * ai
             if base_idx + 3 >= len(preds):
                 out["s"].append({"what": "solver call sequence changed", "kind": "capture-shape"})
